@@ -5825,12 +5825,14 @@ class PyCdlib:
         else:
             if rec.parent is None:
                 return '/'
-            if rec.file_ident is not None:
-                encoding = rec.file_ident.encoding
-            else:
-                encoding = 'utf-8'
             udf_rec = rec  # type: Optional[udfmod.UDFFileEntry]
             while udf_rec is not None:
+                # Every component carries its own encoding (8-bit or 16-bit
+                # OSTA compressed unicode).
+                if udf_rec.file_ident is not None:
+                    encoding = udf_rec.file_ident.encoding
+                else:
+                    encoding = 'utf-8'
                 ident = udf_rec.file_identifier()
                 if ident == b'/':
                     name = b''
